@@ -38,3 +38,24 @@ Example C02_nonvacuous :
   new nat nat hash (fun _ => 7) parse (fun _ => 1) (fun _ => 0) None (Some (1, 101)) (Some (0, 2)) 0 1 1 = Some (mkMan nat nat 1 1 101 7 1 1) /\
   dg _ _ (edits nat nat hash (fun _ => 7) (fun v => v) [fun v => v + 1; fun v => v * 2] (mkMan nat nat 1 1 101 7 1 1)) = 104.
 Proof. repeat split. Qed.
+
+(* generated table (translator extract/setters.go, regenerated from types/manifest on every run): every method that
+   stores into a field of a manifest struct ends in `return m.updateDesc()` - the step the edit theorem above models
+   as "edit the struct, then recompute raw body, digest and size" - or (schema1 SetOrig) assigns raw body and
+   descriptor itself from one marshalled slice; and every updateDesc has the shape marshal -> rawBody -> desc{digest
+   of that slice, length of that slice} *)
+From Verif Require Import Gen.ManifestSetters.
+Theorem C02_all_setters_funnel : forall s, In s manifest_setters -> st_content s = true -> st_funnel s = true \/ st_inline s = true.
+Proof.
+  assert (H : forallb (fun s => implb (st_content s) (st_funnel s || st_inline s)) manifest_setters = true) by (vm_compute; reflexivity).
+  intros s Hin Hc. rewrite forallb_forall in H. specialize (H s Hin). rewrite Hc in H. cbn in H. now apply Bool.orb_prop in H.
+Qed.
+Print Assumptions C02_all_setters_funnel.
+Theorem C02_update_desc_shape : forall p, In p update_desc_shapes -> snd p = true.
+Proof.
+  assert (H : forallb (fun p : String.string * bool => snd p) update_desc_shapes = true) by (vm_compute; reflexivity).
+  intros p Hin. rewrite forallb_forall in H. exact (H p Hin).
+Qed.
+Print Assumptions C02_update_desc_shape.
+Example C02_setter_table_nonempty : 15 <= List.length manifest_setters /\ 5 <= List.length update_desc_shapes.
+Proof. split; vm_compute; repeat constructor. Qed.
